@@ -765,6 +765,10 @@ pub struct IpTweak {
     pub tcp_window: Option<u16>,
     #[serde(default)]
     pub tcp_urg: Option<u16>,
+    /// bytes behind the end of the IP packet (Ethernet padding, as on every frame shorter than 60
+    /// bytes on a real wire, or a trailer): not part of the packet, whatever they hold
+    #[serde(default)]
+    pub pad: u8,
 }
 
 thread_local! {
@@ -780,6 +784,16 @@ pub fn set_ambient_tweak(t: Option<IpTweak>) {
 /// apply to a consistent Ethernet/IPv4 or Ethernet/IPv6 frame (no-op otherwise); the IPv4 header
 /// checksum is recomputed; the hop limit of ICMPv6 neighbour discovery messages is left at 255
 pub fn apply_ip_tweak(f: &mut Vec<u8>, t: &IpTweak) -> bool {
+    let done = apply_ip_tweak_fields(f, t);
+    if done && t.pad > 0 {
+        let n = f.len();
+        let fill = if t.pad % 2 == 0 { 0u8 } else { 0xa5 };
+        f.resize(n + t.pad as usize, fill);
+    }
+    done
+}
+
+fn apply_ip_tweak_fields(f: &mut Vec<u8>, t: &IpTweak) -> bool {
     if f.len() < 14 + 20 {
         return false;
     }
